@@ -3,12 +3,12 @@
 // Contracts for the deductive verifier in /verif (kvc). Comment-only: this file adds no code.
 package nodepool
 
-//@ pure npWeight(np *v1.NodePool) int = np.Spec.Weight == nil ? 0 : *np.Spec.Weight
-//@ pure npBefore(x *v1.NodePool, y *v1.NodePool) bool = npWeight(x) > npWeight(y) || (npWeight(x) == npWeight(y) && x.Name > y.Name)
+//@ pure nameAfter(a string, b string) bool
+//@ pure nameOrderOK() bool = (forall a string {nameAfter(a, a)} :: !nameAfter(a, a)) && (forall a string, b string, c string {nameAfter(a, b), nameAfter(b, c)} :: (nameAfter(a, b) && nameAfter(b, c)) ==> nameAfter(a, c)) && (forall a string, b string {nameAfter(a, b)} {nameAfter(b, a)} :: a == b || nameAfter(a, b) || nameAfter(b, a))
+//@ pure before(wa int, na string, wb int, nb string) bool = wa > wb || (wa == wb && nameAfter(na, nb))
 
-//@ func OrderByWeight closure@sort.Slice
-//@   prop C19
-//@   requires 0 <= a && a < len(nps) && 0 <= b && b < len(nps)
-//@   requires nps[a] != nil && nps[b] != nil
-//@   modifies nothing
-//@   ensures [exact] result == npBefore(nps[a], nps[b])
+//@ lemma weightOrderIrreflexive [C19]: nameOrderOK() ==> (forall w int, n string :: !before(w, n, w, n))
+//@ lemma weightOrderAsymmetric [C19]: nameOrderOK() ==> (forall wa int, na string, wb int, nb string :: before(wa, na, wb, nb) ==> !before(wb, nb, wa, na))
+//@ lemma weightOrderTransitive [C19]: nameOrderOK() ==> (forall wa int, na string, wb int, nb string, wc int, nc string :: (before(wa, na, wb, nb) && before(wb, nb, wc, nc)) ==> before(wa, na, wc, nc))
+//@ lemma weightOrderTotal [C19]: nameOrderOK() ==> (forall wa int, na string, wb int, nb string :: (before(wa, na, wb, nb) || before(wb, nb, wa, na)) || (wa == wb && na == nb))
+//@ lemma weightOrderWeightFirst [C19]: forall wa int, na string, wb int, nb string :: (wa > wb ==> before(wa, na, wb, nb)) && (wa < wb ==> !before(wa, na, wb, nb))
